@@ -7,15 +7,20 @@ COMMON_NOTE = ("Trusted: Coq 8.16.1 kernel + vm_compute (no native_compute, no a
                "stream drives it; tsstrip + Node 20 driver / Rust harness; generated tables (Model/Generated.v) extractor. ")
 
 CHECKS = {
- "C02": ("Theorems: C02_flat_unsupported_throws — for every tree/environment/state, a successful flat schema() implies no Date, "
-         "bigint, Map, Set or typed array at any position the printer visits (so such types throw instead of emitting a schema); "
-         "C02_refuted_tuple_without_minItems and C02_refuted_never_is_malformed exhibit the unchanged code's violations against the "
-         "Coq reading of Draft 2020-12 (Model/JsonSchema.v). Soundness ('valid against the schema => accepted, no undeclared key'), "
-         "completeness on null-free exact members, well-formedness and $ref resolution are decided per generated (type, document) "
-         "by python jsonschema on the implementation's flat and contextual schemas (search); the schema printer model is tied to "
-         "codegen-v2.ts/openapi-pp.ts by comparing every emitted schema.",
-         "Soundness/completeness are not proved (only refuted where false and searched elsewhere); python jsonschema is the oracle "
-         "for Draft 2020-12; flat schemas of recursive types are outside the claim, as the property says."),
+ "C02": ("Theorems: C02_flat_schema_sound_on_fragment — for every validator tree of the fragment (primitives, any, nullish, literals, "
+         "literal sets, arrays, unions, optional members, closed objects, records, non-recursive named types, descriptions), every "
+         "environment and every JSON document, a document valid against the flat schema (Model/JsonSchema.v js_valid, an executable "
+         "reading of the Draft 2020-12 keywords beff emits) is accepted by validate(), in strict mode too, i.e. it carries no undeclared "
+         "key (Proofs/C02Sound.v, by induction on the printer; removeNullUnionBranch and the required list are covered); "
+         "C02_flat_unsupported_throws — for every tree/environment/state, a successful flat schema() implies no Date, bigint, Map, Set "
+         "or typed array at any position the printer visits; C02_refuted_tuple_without_minItems and C02_refuted_never_is_malformed "
+         "exhibit the unchanged code's violations. Ties: every emitted schema (flat and contextual) against Model/Schema.v; js_valid "
+         "against python jsonschema on every (emitted schema, document) pair. The converse direction (null-free exact members are "
+         "valid), contextual mode, well-formedness, $ref resolution and the constructs outside the fragment are decided per generated "
+         "(type, document) by python jsonschema on the implementation's schemas (search).",
+         "Completeness, contextual mode, intersections, tuples, dispatch nodes, patterns and formats are not proved (refuted where "
+         "false, searched elsewhere); python jsonschema is the oracle for Draft 2020-12; flat schemas of recursive types are outside "
+         "the claim, as the property says."),
  "C03": ("Theorems (all trees, environments, values, options): safeParse succeeds iff validate = true (and parse returns iff "
          "safeParse succeeds; failure implies validate = false); validate never throws outside discriminator dispatch "
          "(C03_validate_never_throws_except_known); refutations with witnesses for the throw and for re-validation of the "
@@ -59,10 +64,12 @@ CHECKS = {
  "C09": ("Theorems on the identifier-assignment model (Model/Names.v = to_valid_ts_identifier, min_file_path_that_differs, "
          "TypeAddress::ts_identifier): same-named types of different files get distinct identifiers whenever their sanitised "
          "distinguishing path suffixes differ (all address sets); the unrestricted 'kept apart' clause is refuted with the witness "
-         "a-b.ts / a_b.ts, which reproduces on the implementation (known finding). The splitting clause is decided on the "
+         "a-b.ts / a_b.ts, which reproduces on the implementation (known finding). The model is tied to lib.rs by comparing its "
+         "identifiers with the keys of the emitted namedRuntypes for every generated project. The splitting clause is decided on the "
          "implementation: random programs are distributed over 1-3 modules with named/type-only/namespace/renamed imports, export-star "
          "barrels, default exports of expressions and re-export chains (typeof of constants included) and compared with the "
-         "single-file program on validate() over type-directed values; unresolvable references must produce diagnostics.",
+         "single-file program on validate() over type-directed values; 2-4 same-named types in flat and nested directories are "
+         "referenced side by side; unresolvable references must produce diagnostics.",
          "Import/export binding (bind_exports.rs, the module walkers) is not modelled in Coq; .d.ts/.tsx only select parser options "
          "and import(\"...\") types are not generated; import specifier resolution is the harness rule ./x -> x.ts."),
  "C10": ("Theorems with an explicit order oracle (any permutation of a HashMap's entries): the emitted sequence of named validators "
@@ -83,11 +90,14 @@ CHECKS = {
          "rmember (membership of the IR type under beff's conventions), for every tree the printer builds structurally — all "
          "constructors except template-literal patterns, intersections, tuples and the two dispatch forms of unions; the two dispatch "
          "forms are proved to accept exactly what the plain union of their members accepts (C01_literal_set_dispatch_is_union, "
-         "C01_discriminator_dispatch_is_union). The printer model is tied to printer.rs by comparing its output on the compiler's own "
+         "C01_discriminator_dispatch_is_union), and for unions of literals the link to the IR is closed: whenever the printer emits one "
+         "literal-set node for a union (through references, nested unions and de-duplication) that node answers what the IR union "
+         "means (C01_literal_union_validator_means_the_union); C01_refuted_for_short_tuples pins the tuple finding on the model. "
+         "The printer model is tied to printer.rs by comparing its output on the compiler's own "
          "IR with the tree dumped from the emitted module; the frontend (TypeScript -> IR) is not modelled and is judged on generated "
          "programs by a reference membership of the source type and by rmember of the IR in Coq, on type-directed values.",
          "Partial: template-literal patterns (regex semantics), intersections and tuples (both have known findings) and the link "
-         "'members of a dispatch node = flattened union' are outside the theorem and covered by the search; object types are read as "
+         "'members of a discriminator dispatch node = flattened union' are outside the theorem and covered by the search; object types are read as "
          "'non-null objects' (beff's reading), ${number} as TypeScript's in the reference and as the emitted pattern in rmember."),
  "C05": ("Theorems (Model/Subtype.v = SemTypeOps::is_empty/is_subtype/is_same_type; list and mapping emptiness are a parameter): "
          "C05_difference_is_set_difference (difference of whole semantic types = set difference, every valid point, every valuation of "
